@@ -32,6 +32,5 @@ Definition text_load_model (conv : list N -> list Z) (sixels : sixel_oracle) (f 
     | FileLoad.TOk _ _ => OOk
     | FileLoad.TErr => OErr
     | FileLoad.TPanic _ => OPanic
-    | FileLoad.TOverflow => OPanic
     end
   end.
